@@ -93,6 +93,7 @@ impl rustls::client::ResolvesClientCert for Always {
 }
 
 pub struct Adversary {
+    pub held: Vec<(quinn::SendStream, quinn::RecvStream)>,
     pub endpoint: quinn::Endpoint,
     pub port: u16,
     pub conns: HashMap<usize, quinn::Connection>,
@@ -169,7 +170,61 @@ impl Adversary {
                 });
             }
         });
-        Adversary { endpoint, port, conns: HashMap::new(), accepted, present_cert }
+        Adversary { held: Vec::new(), endpoint, port, conns: HashMap::new(), accepted, present_cert }
+    }
+
+    /// Hostile behaviour on an established connection to `target` (C06). `op`:
+    ///   bi:<hex>:<finish|reset|hold|abandon|stop>   open a request stream, write bytes, then act
+    ///   uni:<hex>  datagram:<hex>  close
+    pub async fn hostile(&mut self, target: usize, op: &str, held: &mut Vec<(quinn::SendStream, quinn::RecvStream)>) -> String {
+        let Some(conn) = self.conns.get(&target).cloned() else { return "err noconn".into() };
+        let f: Vec<&str> = op.split(':').collect();
+        let bytes = |h: &str| if h == "-" { Vec::new() } else { hex::decode(h).unwrap() };
+        match f[0] {
+            "bi" => {
+                let Ok((mut tx, mut rx)) = conn.open_bi().await else { return "err open".into() };
+                let data = bytes(f[1]);
+                if !data.is_empty() && tx.write_all(&data).await.is_err() {
+                    return "err write".into();
+                }
+                match f[2] {
+                    "finish" => {
+                        let _ = tx.finish();
+                        // read whatever the server answers (bounded), report the first bytes
+                        let r = tokio::time::timeout(std::time::Duration::from_secs(5), rx.read_to_end(1 << 20)).await;
+                        match r {
+                            Ok(Ok(v)) => format!("answered {}", v.len()),
+                            Ok(Err(_)) => "stream-error".into(),
+                            Err(_) => { held.push((tx, rx)); "no-answer".into() }
+                        }
+                    }
+                    "reset" => { let _ = tx.reset(7u32.into()); "reset".into() }
+                    "stop" => { let _ = rx.stop(9u32.into()); let _ = tx.finish(); "stopped".into() }
+                    "abandon" => { drop(tx); drop(rx); "abandoned".into() }
+                    _ => { held.push((tx, rx)); "held".into() }
+                }
+            }
+            "uni" => {
+                let Ok(mut tx) = conn.open_uni().await else { return "err open".into() };
+                let _ = tx.write_all(&bytes(f[1])).await;
+                let _ = tx.finish();
+                "uni".into()
+            }
+            "datagram" => match conn.send_datagram(bytes(f[1]).into()) {
+                Ok(()) => "datagram".into(),
+                Err(_) => "datagram-refused".into(),
+            },
+            "close" => {
+                conn.close(3u32.into(), b"bye");
+                self.conns.remove(&target);
+                "closed".into()
+            }
+            _ => "bad-op".into(),
+        }
+    }
+
+    pub fn conn_open(&self, target: usize) -> bool {
+        self.conns.get(&target).map(|c| c.close_reason().is_none()).unwrap_or(false)
     }
 
     /// Dials an honest node claiming `sni`; plays the client half of anemo's handshake.
